@@ -88,7 +88,7 @@ CLAIMED.update({
                 "a column encoded on write is decoded in every read view (eager, lazy, array iterators: callers of the shared decoder); "
                 "lone '.' escape present; Character values decoded by every reader that extracts a single character; variant span has one provided implementation; every success path of the parser resets each column of a reused "
                 "RecordBuf (samples tabled as not decided); line buffers are reset before each appended line. Value equality over the grammar is not decided.",
-        "note": "trusts the percent-encoding crate; delimiter harvest is by named constants with a floor; genuine defects F17 (per-window UTF-8 validation) and F18 (eager Character not decoded) repaired (fix: ee4ec0f, 1c67b13); two seeded changes of value-level kind are documented misses; R11 element-wise reset of the per-sample rows",
+        "note": "trusts the percent-encoding crate; delimiter harvest is by named constants with a floor; genuine defects F17 (per-window UTF-8 validation) and F18 (eager Character not decoded) repaired (fix: ee4ec0f, 1c67b13); two seeded changes of value-level kind are documented misses; R11 element-wise reset of the per-sample rows; genuine defect F46 (FORMAT numbers of VCF 4.5 written but not parsed) repaired (fix: ecfda04; R13); R12 decode after split",
         "technique": "static analysis: evaluated AsciiSet constants vs spec table, HIR match-pattern sets, caller sets of encode/decode helpers, trait impl table",
         "design_ref": "§5 C09",
     },
